@@ -116,22 +116,21 @@ for m in re.finditer(r'^([A-Z][A-Z0-9_]+) = ', sp, re.M):
     n = re.search(r'\n(?=def |[A-Z][A-Z0-9_]+ = |PROPS)', rest)
     s = s.replace('PROPS = {', rest[:n.start()].rstrip() + '\n\nPROPS = {', 1)
     print('  props.py: added constant', name)
-i = sp.find("    '%s': dict(" % pid)
-if i >= 0 and ("'%s': dict(" % pid) not in s:
-    depth, j = 0, i
-    while True:
-        c = sp[j]
-        if c == '(':
-            depth += 1
-        elif c == ')':
-            depth -= 1
-            if depth == 0:
-                break
-        j += 1
-    entry = sp[i:j + 1] + ',\n'
+import ast
+def prop_entry(text, pid):
+    tree = ast.parse(text)
+    for node in ast.walk(tree):
+        if isinstance(node, ast.Assign) and getattr(node.targets[0], 'id', '') == 'PROPS':
+            for k, v in zip(node.value.keys, node.value.values):
+                if getattr(k, 'value', None) == pid:
+                    lines = text.split('\n')
+                    return '\n'.join(lines[k.lineno - 1:v.end_lineno])
+    return None
+entry = prop_entry(sp, pid)
+if entry and ("'%s': dict(" % pid) not in s:
     s = s.rstrip()
     assert s.endswith('}')
-    s = s[:-1] + entry + '}\n'
+    s = s[:-1] + entry.rstrip().rstrip(',') + ',\n}\n'
     print('  props.py: added PROPS entry', pid)
 open(p, 'w').write(s)
 # ---- manifest props
